@@ -195,6 +195,24 @@ impl Janitor {
       let key_hash = crate::store::hash_key(&context.store.hasher, key);
 
       if expired_set.contains(&key_hash) {
+        // The fired timer only carries a key hash: it may be early (tick
+        // rounding), belong to a value that has since been overwritten with a
+        // longer lifetime, or collide with another key. Only an entry that is
+        // really expired is removed and reported as Expired; an early one is
+        // re-armed for its remaining lifetime.
+        if !entry.is_expired(context.time_to_idle) {
+          let expires_at = entry.expires_at.load(Ordering::Relaxed);
+          if expires_at > 0 {
+            if let Some(wheel) = &shard.timer_wheel {
+              let now = crate::time::now_duration().as_nanos() as u64;
+              wheel.schedule(
+                key_hash,
+                std::time::Duration::from_nanos(expires_at.saturating_sub(now)),
+              );
+            }
+          }
+          return true;
+        }
         context.cache_policy[shard_index].on_remove(key);
         context
           .metrics
